@@ -354,3 +354,8 @@ def run(repo: Repo, rep: Report, tier: str) -> None:
     from .c07 import array_count_fold_rule
 
     array_count_fold_rule(repo, rep, "C01.R20")
+    from .c04 import layout_fold_rule
+    from .c06 import unit_switch_rule
+
+    unit_switch_rule(repo, rep, "C01.R21")
+    layout_fold_rule(repo, rep, "C01.R22", 3 if tier == "thorough" else 2)
